@@ -136,6 +136,7 @@ def calls(rng, matrix, tier):
         for hoa in (None, "v", "x y"):
             for q in (None, "a&b=c"):
                 out.append(("ctxCall", {"p": pv, "hoa": hoa, "q": q}, "r", None))
+    out.append(("optQuery", {"first": "f", "lst": list(range(1500)), "st": ["s%d" % i for i in range(1200)], "last": 7}, "r", None))     # thousands of query pairs
     for n in (45, 46):      # the `limited` endpoint takes 48 bytes: a JSON string of 45 / 46 characters is 47 / exactly 48 bytes long
         out.append(("limited", {"body": "x" * n}, "r", None))
     out.append(("names", {"type": 1, "fooBar": UUID, "async": 2, "camelCase": None, "self": 3, "snakeArg": [4, 5], "match": True}, "n", None))
